@@ -22,6 +22,7 @@ import ast
 from core.loader import AnalysisError, ClassInfo, FuncInfo, Repo
 from core.report import Result
 
+from .c07_model import semantic_compare
 from .c07_norm import Norm, canon, canon_gen, cases, diff_bags, rename_try, try_names
 from .c07_sym import Evaluator, Obj
 
@@ -225,6 +226,26 @@ class Comparison:
             na = rename_try(na, try_names(na))
             ne = rename_try(ne, try_names(ne))
             extra, missing, exp_gens = diff_bags(na, ne)
+            counterexample = ""
+            if extra or missing:
+                # semantic back-stop: interpret both normal forms over small finite models
+                fixed = {}
+                if "nonempty(FLAG)" in asm:
+                    fixed["FLAG"] = asm["nonempty(FLAG)"]
+                if "P is None" in asm:
+                    fixed["P"] = None if asm["P is None"] else "p"
+                status, info = semantic_compare(na, ne, fixed)
+                if status == "equal":
+                    for text in exp_gens:
+                        self.res.add(self.rule, f"{self.key}::{what}{suffix} {short(text)}", True, f"computed as specified (spelled differently; equal on all {info} finite models)", self.where, kind=kind)
+                    self.res.add(self.rule, f"{self.key}::{what}{suffix} nothing else", True, "no further element", self.where, kind=kind)
+                    continue
+                if status == "differ":
+                    counterexample = " Counterexample " + info
+                    if not missing:
+                        all_ok = False
+                        self.res.add(self.rule, f"{self.key}::{what}{suffix} nothing else", False, f"{what}: differs from the specification." + counterexample, self.where, kind=kind)
+                        continue
             imprecise = list(dict.fromkeys(na_.opaque + self.ev.problems))
             cut = any("cut-short" in x for x in extra)
             # definite, whatever else is imprecise: a `raise` inside a loop ends the loop at that element
@@ -242,22 +263,22 @@ class Comparison:
                 all_ok = False
                 need = syms_of(ne) if len(exp_gens) == 1 else syms_named(text, syms_of(ne))
                 lost = sorted(need - syms_of(na))
-                if imprecise and not lost:
+                if imprecise and not lost and not counterexample:
                     self.res.undecide(self.rule, construct, "cannot be compared precisely: " + "; ".join(imprecise[:3]), self.where)
                     continue
                 why = f"does not depend on {', '.join(lost)} at all; " if lost else ""
                 got = "; ".join(short(x, 600) for x in extra[:2]) or "nothing"
-                self.res.add(self.rule, construct, False, f"{what}: the specified part `{short(text, 300)}` is not computed ({why}found instead: {got})" + (" - a loop is cut short by `break`" if cut else ""), self.where, kind=kind)
+                self.res.add(self.rule, construct, False, f"{what}: the specified part `{short(text, 300)}` is not computed ({why}found instead: {got})" + (" - a loop is cut short by `break`" if cut else "") + counterexample, self.where, kind=kind)
             construct = f"{self.key}::{what}{suffix} nothing else"
             if not extra or missing:
                 # extras next to a missing part are reported there
                 self.res.add(self.rule, construct, True, "no further element", self.where, kind=kind)
-            elif imprecise:
+            elif imprecise and not counterexample:
                 all_ok = False
                 self.res.undecide(self.rule, construct, "cannot be compared precisely: " + "; ".join(imprecise[:3]), self.where)
             else:
                 all_ok = False
-                self.res.add(self.rule, construct, False, f"{what}: additionally computes `{'; '.join(short(x, 300) for x in extra[:2])}`, which the specification does not contain", self.where, kind=kind)
+                self.res.add(self.rule, construct, False, f"{what}: additionally computes `{'; '.join(short(x, 300) for x in extra[:2])}`, which the specification does not contain." + counterexample, self.where, kind=kind)
         return all_ok
 
 
